@@ -33,6 +33,7 @@ type vinfo struct {
 	name string
 	typ  string // int rune string any ... | "closure/N" | "iter/<elem>" | "genfn/N/<elem>"
 	hdr  bool   // variable of a 3-clause for header (must not be captured by closures)
+	ro   bool   // loop counter maintained by the generator: never assigned by generated statements
 }
 
 type frame struct {
@@ -144,7 +145,7 @@ func (g *gctx) intVars() []vinfo {
 // assignable int variables (type exactly int, not a header var when in a closure)
 func (g *gctx) mutVars() []vinfo {
 	return g.visible(func(v vinfo) bool {
-		if v.hdr {
+		if v.hdr || v.ro {
 			return false
 		}
 		return v.typ == "int"
@@ -310,6 +311,13 @@ func (g *gctx) allowed(k string) bool {
 		if !g.hasDelegTarget() {
 			return false
 		}
+	case "pullloop", "itassign":
+		if len(g.iterVars()) == 0 {
+			return false
+		}
+		if k == "pullloop" && g.depth >= g.prof.maxDepth {
+			return false
+		}
 	case "panic":
 		return g.prof.panics
 	case "genlit":
@@ -372,7 +380,16 @@ func (g *gctx) stmt() []*Stmt {
 		e := g.intExpr(2)
 		name := g.newVarName(true)
 		g.declare(vinfo{name: name, typ: "int"})
-		return []*Stmt{{K: "decl", Name: name, E: e}}
+		d := &Stmt{K: "decl", Name: name, E: e}
+		switch g.draw(10, "declform") {
+		case 0, 1:
+			d.T = "var" // var x = e
+			g.prog.tag("var-decl")
+		case 2:
+			d.T = "var-typed" // var x int = e
+			g.prog.tag("var-decl")
+		}
+		return []*Stmt{d}
 	case "assign":
 		vs := g.mutVars()
 		v := vs[g.draw(len(vs), "asgvar")]
@@ -437,9 +454,17 @@ func (g *gctx) stmt() []*Stmt {
 	case "genlit":
 		return g.genLit()
 	case "crange":
+		if g.pct(30, "crange-assign") {
+			// `=` form: the loop variable is declared before the loop and keeps the last element
+			return g.crangeAssign()
+		}
 		return []*Stmt{g.crangeStmt()}
 	case "itdecl":
 		return g.itDecl()
+	case "pullloop":
+		return []*Stmt{g.pullLoop()}
+	case "itassign":
+		return g.itAssign()
 	}
 	return []*Stmt{g.evStmt()}
 }
@@ -692,14 +717,14 @@ func (g *gctx) forStmt() []*Stmt {
 			g.prog.tag("yielding-init")
 			g.noteYield()
 			pre = append(pre, &Stmt{K: "decl", Name: i, E: lit(0)})
-			g.scope[len(g.scope)-2].vars = append(g.scope[len(g.scope)-2].vars, vinfo{name: i, typ: "int"})
+			g.scope[len(g.scope)-2].vars = append(g.scope[len(g.scope)-2].vars, vinfo{name: i, typ: "int", ro: true})
 			s.Init = &Stmt{K: "yield", E: g.intExpr(1)}
 		}
 	case form < 8: // condition only: counter declared before, advanced first thing in the body
 		i := g.fresh("w")
 		pre = append(pre, &Stmt{K: "decl", Name: i, E: lit(0)})
 		// the counter lives in the enclosing scope
-		g.scope[len(g.scope)-2].vars = append(g.scope[len(g.scope)-2].vars, vinfo{name: i, typ: "int"})
+		g.scope[len(g.scope)-2].vars = append(g.scope[len(g.scope)-2].vars, vinfo{name: i, typ: "int", ro: true})
 		s.E = &Expr{K: "cmp", Op: "<", L: &Expr{K: "var", Name: i}, R: lit(1 + g.draw(3, "wbound"))}
 		s.Name = i // remembered: body starts with i++
 		g.prog.tag("for-cond")
@@ -722,10 +747,10 @@ func (g *gctx) forStmt() []*Stmt {
 	}
 	if s.E == nil && s.Init == nil {
 		// infinite loop: most get a guarded exit so that the generator terminates
-		if !g.inGen || g.pct(80, "infexit") {
+		if !g.inGen || g.prof.noEv || g.pct(80, "infexit") {
 			c := g.fresh("n")
 			pre = append(pre, &Stmt{K: "decl", Name: c, E: lit(0)})
-			g.scope[len(g.scope)-3].vars = append(g.scope[len(g.scope)-3].vars, vinfo{name: c, typ: "int"})
+			g.scope[len(g.scope)-3].vars = append(g.scope[len(g.scope)-3].vars, vinfo{name: c, typ: "int", ro: true})
 			exit := "break"
 			if g.pct(30, "infret") {
 				exit = "return"
@@ -1002,6 +1027,69 @@ func (g *gctx) itDecl() []*Stmt {
 	return out
 }
 
+func (g *gctx) iterVars() []vinfo {
+	return g.visible(func(v vinfo) bool {
+		return len(v.typ) > 5 && v.typ[:5] == "iter/" && !(g.inClosure > 0 && v.hdr)
+	})
+}
+
+// pullLoop: for it.MoveNext() { v := it.Current(); ... }   (pull-style consumption of an iterator variable)
+func (g *gctx) pullLoop() *Stmt {
+	g.depth++
+	defer func() { g.depth-- }()
+	g.prog.tag("pull-loop")
+	vs := g.iterVars()
+	it := vs[g.draw(len(vs), "pullit")]
+	elem := it.typ[5:]
+	s := &Stmt{K: "for", E: &Expr{K: "mn", Name: it.name}}
+	g.push(false)
+	defer g.pop()
+	g.loops++
+	g.inner = append(g.inner, "loop")
+	g.postYieldLoop = append(g.postYieldLoop, false)
+	g.push(false)
+	ay := g.afterYield
+	vn := g.fresh("c")
+	first := g.evStmt()
+	g.declare(vinfo{name: vn, typ: "int"})
+	body := []*Stmt{first, {K: "decl", Name: vn, E: &Expr{K: "cur", Name: it.name, T: elem}}}
+	if g.inGen && g.pct(50, "pullyield") {
+		g.noteYield()
+		body = append(body, &Stmt{K: "yield", E: &Expr{K: "var", Name: vn}})
+	}
+	body = append(body, g.stmts(3, false)...)
+	g.pop()
+	g.postYieldLoop = g.postYieldLoop[:len(g.postYieldLoop)-1]
+	g.inner = g.inner[:len(g.inner)-1]
+	g.loops--
+	g.afterYield = ay || g.afterYield
+	s.Body = body
+	return s
+}
+
+// itAssign: it = G(..)   (an iterator variable is re-assigned, possibly inside its own pull loop)
+func (g *gctx) itAssign() []*Stmt {
+	vs := g.iterVars()
+	it := vs[g.draw(len(vs), "asgit")]
+	elem := it.typ[5:]
+	var cands []genInfo
+	for _, gi := range g.gens {
+		if gi.elem == elem {
+			cands = append(cands, gi)
+		}
+	}
+	if len(cands) == 0 {
+		return []*Stmt{g.evStmt()}
+	}
+	gi := cands[g.draw(len(cands), "asggen")]
+	ie := &IterExpr{K: "call", Name: gi.name, Elem: gi.elem}
+	for i := 0; i < gi.nparam; i++ {
+		ie.Args = append(ie.Args, g.intExpr(1))
+	}
+	g.prog.tag("iterator-reassigned")
+	return []*Stmt{{K: "itassign", Name: it.name, Iter: ie}}
+}
+
 // crangeStmt: for v := range <iterator> { ... }  (consumer-side range)
 func (g *gctx) crangeStmt() *Stmt {
 	g.depth++
@@ -1030,6 +1118,36 @@ func (g *gctx) crangeStmt() *Stmt {
 	g.loops--
 	g.afterYield = ay || g.afterYield
 	return s
+}
+
+// crangeAssign: var v T; for v = range <iterator> { ... }; use v
+func (g *gctx) crangeAssign() []*Stmt {
+	g.depth++
+	defer func() { g.depth-- }()
+	g.prog.tag("range-over-iterator", "range-over-iterator-assign")
+	it := g.iterExpr()
+	name := g.fresh("q")
+	g.declare(vinfo{name: name, typ: it.Elem})
+	s := &Stmt{K: "crange", Iter: it, Op: "=", Name: name}
+	g.loops++
+	g.inner = append(g.inner, "loop")
+	g.postYieldLoop = append(g.postYieldLoop, false)
+	g.push(false)
+	ay := g.afterYield
+	s.Body = g.stmts(3, true)
+	if g.pct(40, "redecl") {
+		// the body declares the loop variable's name again (own scope)
+		s.Body = append(s.Body, &Stmt{K: "decl", Name: name, E: &Expr{K: "bin", Op: "*", L: &Expr{K: "var", Name: name, T: it.Elem}, R: lit(2)}},
+			&Stmt{K: "ev", ID: g.ev(), Args: []*Expr{{K: "var", Name: name}}})
+		g.prog.tag("loop-variable-redeclared-in-body")
+	}
+	g.pop()
+	g.postYieldLoop = g.postYieldLoop[:len(g.postYieldLoop)-1]
+	g.inner = g.inner[:len(g.inner)-1]
+	g.loops--
+	g.afterYield = ay || g.afterYield
+	after := &Stmt{K: "ev", ID: g.ev(), Args: []*Expr{{K: "var", Name: name, T: it.Elem}}}
+	return []*Stmt{{K: "var", Name: name, T: it.Elem}, s, after}
 }
 
 // ---- programs -----------------------------------------------------------------------------------
